@@ -201,6 +201,13 @@ def shard_main(ctx):
             ctx.run_hypothesis([gen.charts(o, 'lua'), gen.event_histories()],
                                lambda ch, evs, engine=engine: check_case(ctx, ch, evs, engine), p["examples"] // 4,
                                lambda ch, evs, engine=engine: dict(case_repr(ch, evs), engine=engine), name=name + engine)
+    # failing elements inside the content of <initial> and history default transitions (taken in the entry phase, not with the
+    # ordinary transitions): charts dense with both
+    po = gen.GenOpts(faults=True, max_states=7, history_weight=4, hist_target_weight=3, deep_initial_weight=0, late_binding=False)
+    for engine in ("large", "fast"):
+        ctx.run_hypothesis([gen.charts(po, 'lua'), gen.event_histories(6)],
+                           lambda ch, evs, engine=engine: check_case(ctx, ch, evs, engine), p["examples"] // 4,
+                           lambda ch, evs, engine=engine: dict(case_repr(ch, evs), engine=engine), name="pseudo" + engine)
     # timed stream: delayed sends to the own session (external queue and #_internal) expiring while the session is idle
     for engine in ("large", "fast"):
         ctx.run_hypothesis([gen.delayed_charts('lua')], lambda ch, engine=engine: check_timed_case(ctx, ch, engine), p["examples"] // 8 + 1,
